@@ -10,3 +10,4 @@ pub mod body;
 pub mod path;
 pub mod query;
 mod request_head;
+mod urlencoded_utf8;
